@@ -192,7 +192,7 @@ func soloBodies(cs *Case) ([][]byte, error) {
 	if err != nil {
 		return nil, err
 	}
-	if panicked, pv, _ := fw.Guard(func() { callClient(cl, cs) }); panicked {
+	if panicked, pv, _ := fw.Guard(func() { callClient(cl, cs, []string{cs.Path}) }); panicked {
 		return nil, fmt.Errorf("panic: %v", pv)
 	}
 	var l [][]byte
@@ -265,7 +265,7 @@ func execOverlapCW(c *xctx, g *Case) {
 		go func(i int, m *Case) {
 			defer wg.Done()
 			defer gc.b.returned()
-			if panicked, pv, stack := fw.Guard(func() { callClient(cl, m) }); panicked {
+			if panicked, pv, stack := fw.Guard(func() { callClient(cl, m, []string{m.Path}) }); panicked {
 				panics[i] = fmt.Sprintf("%v in %s", pv, fw.PanicSite(stack))
 			}
 		}(i, m)
